@@ -61,6 +61,19 @@ type Target struct {
 	// one (directly or through targets) takes and returns the world in the same
 	// way; the order of the effects is the order of evaluation of the Go code.
 	Effect bool
+	// Concrete (interface type rows with Nilable): "<pkg>.<Type>" of the one struct
+	// type whose pointer every value of this interface type holds in the translated
+	// code (ASSUMPTION, listed in the generated file). The interface value is then
+	// `ptr (ptr T)`: PNil = the nil interface, PNew PNil = a nil *T inside a non-nil
+	// interface value (Go's typed nil, kept exactly), PNew (PNew t) = a *T. A *T is
+	// converted by PNew; method calls through such an interface value are refused.
+	Concrete string
+	// NilableFields (struct type rows: Type without Opaque): slice / map fields whose
+	// nil-ness the code tests (`x.F == nil`). Such a field is `option (list ..)`
+	// in the record (None = nil); read as a slice / map it is `onil (F x)` (nil
+	// is empty); it can only be assigned nil, another nilable field, or a value
+	// that is certainly not nil (a literal, make, a conversion).
+	NilableFields []string
 	// InstantiateAny (functions): parameters of type `any` / interface{} that are
 	// instantiated with the static type of the argument at each call site (one
 	// translation per type, suffix `_Type`), like a type parameter: inside the
@@ -749,7 +762,7 @@ func init() {
 		map_get map_has map_get_ok map_get_or map_del map_set map_entries map_len map_unique
 		list_len list_get zrange_up zrange_down str_len take drop str_cut str_cut_opt str_index str_last_index str_contains
 		str_has_prefix str_has_suffix str_trim_prefix str_trim_suffix str_cut_prefix str_cut_suffix str_contains_any str_split str_join
-		ptr_map iface_assert bytes_of_str str_of_bytes list_slice list_set ptr_deep_eqb list_deep_eqb map_deep_eqb err_dyn_in filepath_base strip_trailing_slashes take_until_slash err_has_typ err_same err_is err_as err_join anyv ANil AStr AInt ABool AOther AUncmp any_is_nil any_str any_int any_bool any_str_opt any_int_opt any_bool_opt anyv_eqb anyv_cmp_panics anyv_eq_opt str_slice str_get str_trim_space filepath_ext ext_rev re_match matches re time_zero time_is_zero time_after time_before time_equal
+		ptr_map iface_assert bytes_of_str str_of_bytes list_slice list_set onil ptr_deep_eqb list_deep_eqb map_deep_eqb err_dyn_in filepath_base strip_trailing_slashes take_until_slash err_has_typ err_same err_is err_as err_join anyv ANil AStr AInt ABool AOther AUncmp any_is_nil any_str any_int any_bool any_str_opt any_int_opt any_bool_opt anyv_eqb anyv_cmp_panics anyv_eq_opt str_slice str_get str_trim_space filepath_ext ext_rev re_match matches re time_zero time_is_zero time_after time_before time_equal
 		B bytes str_eqb has_prefix cut_byte contains_byte amap lookup lookup_default remove_key set_key mem_str opt_eqb list_eqb run_cases
 		RNone REps RBegin REnd RChar RClass RSeq RAlt RStar RPlus ROpt id plus minus mult le lt ge gt max min`) {
 		reservedCoq[w] = true
